@@ -403,8 +403,8 @@ known("KF-C09-R12", "C09", SB, None, r"verdict:stream-ok-buffer-err", r"relax=st
 
 # ------------------------------------------------------------------ C19
 PJ = "projection"
-known("KF-C19-01", "C19", PJ, None, r"projection-mismatch", r"via:(slice|array|map|top-level-container):(extra-members|other-members|missing-members|missing-promoted-members)",
-      'query [Sl[X]] on QOuter: the elements of Sl keep all their members (sub-queries are not applied through slices, arrays, maps or a top-level container)', "internal/encoder/code.go SliceCode/ArrayCode/MapCode.Filter return the code unchanged",
+known("KF-C19-01", "C19", PJ, None, r"projection-mismatch", r"via:(slice|array|map|top-level-container):(extra-members|other-members|missing-members|missing-promoted-members|string)",
+      'query [Sl[X]] on QOuter: the elements of Sl keep all their members (sub-queries are not applied through slices, arrays, maps or a top-level container); a context-aware marshaler inside a slice element is handed no sub-query (its "seen" string stays empty)', "internal/encoder/code.go SliceCode/ArrayCode/MapCode.Filter return the code unchanged",
       "any other projection difference located below a slice, array or map", "Filter would have to rebuild element codes")
 known("KF-C19-02", "C19", PJ, None, r"projection-mismatch", r"via:recursive-(ptr|slice|map|struct|array):(extra-members|other-members|missing-members|missing-promoted-members)",
       'query [A,Rec[b]] on QOuter: the inner level is filtered with the outer field set', "internal/encoder/compiler.go: recursive struct types jump back into the already filtered outer program",
